@@ -260,11 +260,17 @@ type EnvOpts struct {
 	DialTimeout time.Duration
 	// TokBase is the first call token minus one.
 	TokBase uint64
+	// SendBuf is the managers' send buffer size (recorded in the trace).
+	SendBuf uint
 }
 
 // NewEnv starts the puppet servers and creates the manager and one
 // configuration per prefix size.
 func NewEnv(tr *vtrace.Tracer, o EnvOpts) (*Env, error) {
+	if o.SendBuf > 0 {
+		o.MgrOpts = append(append([]gorums.ManagerOption{}, o.MgrOpts...), gorums.WithSendBufferSize(o.SendBuf))
+	}
+	tr.Emit("EnvInfo", 0, 0, "sendbuf", int(o.SendBuf), "nodes", o.Nodes)
 	e := &Env{Tr: tr, QS: NewQSpec(tr), Cfgs: map[int]*puppet.Configuration{}, tok: o.TokBase}
 	idmap := map[string]uint32{}
 	for i := 1; i <= o.Nodes; i++ {
